@@ -2,8 +2,9 @@
 """pack_seed.py <Cxx> <k> <caught-by text> : copy a confirmed seeded change into /verif/seeded/<Cxx>-<k>/"""
 import json, os, shutil, sys, re
 prop, k, caught = sys.argv[1], int(sys.argv[2]), sys.argv[3]
-src = "/tmp/seed/out/%s" % prop
-dst = "/verif/seeded/%s-%d" % (prop, k)
+src = "%s/%s" % (os.environ.get("SEED_OUT", "/tmp/seed/out"), prop)
+num = k + int(os.environ.get("SEED_OFFSET", "0"))      # round 2 seeds are numbered 3, 4, 5
+dst = "/verif/seeded/%s-%d" % (prop, num)
 os.makedirs(dst, exist_ok=True)
 shutil.copy("%s/patch%d.diff" % (src, k), "%s/patch.diff" % dst)
 if os.path.isdir("%s/demo" % dst):
@@ -13,7 +14,7 @@ notes = open("%s/NOTES.md" % src).read()
 ver = json.load(open("/tmp/seed/verify_result.json")).get("%s_%d" % (prop, k)) or json.load(open("/tmp/seed/verify_result_1.json")).get("%s_%d" % (prop, k), {})
 meta = {
     "property": prop,
-    "seed": "%s-%d" % (prop, k),
+    "seed": "%s-%d" % (prop, num),
     "origin": "written by an independent sub-agent that saw only the property text and its own scratch worktree of the repository",
     "touched_files": ver.get("touched", []),
     "needs_to_manifest": "see notes",
@@ -29,7 +30,7 @@ meta = {
         "demo_commands": ver.get("tests"),
     },
     "detection": {
-        "how_run": "tools/seedtest.sh %s seeded/%s-%d/patch.diff (git -C /repo apply; bin/check %s; git -C /repo checkout -- .)" % (prop, prop, k, prop),
+        "how_run": "tools/dev/seed_try.sh %s seeded/%s-%d/patch.diff (the committed check of /verif run against a scratch clone of /repo with the change applied; same result as tools/seedtest.sh, which applies it to /repo itself and undoes it)" % (prop, prop, num),
         "result": caught,
     },
 }
